@@ -714,6 +714,36 @@ func (s *Scope) evalCall(e ECall) Term {
 		r.GoT = rt
 		return r
 	}
+	// a function-valued parameter or local (resolver(ref), resolver$1(ref)): the same uninterpreted function of its
+	// arguments that calls of the value in the code are modelled by (callFuncValue)
+	{
+		base, idx := fname, 0
+		if i := strings.Index(fname, "$"); i > 0 {
+			base = fname[:i]
+			fmt.Sscanf(fname[i+1:], "%d", &idx)
+		}
+		if v, ok := s.lookup(base); ok && v.GoT != nil {
+			if ft, isSig := v.GoT.Underlying().(*types.Signature); isSig && idx < ft.Results().Len() {
+				as := args()
+				var sorts []Sort
+				for i := range as {
+					if i < ft.Params().Len() {
+						as[i] = x.coerce(as[i], w.SortOf(ft.Params().At(i).Type()))
+					}
+					sorts = append(sorts, as[i].Sort)
+				}
+				rt := ft.Results().At(idx).Type()
+				name := fmt.Sprintf("fv_%s$%d", sanitize(base), idx)
+				w.DeclareFun(name, sorts, w.SortOf(rt))
+				r := T(app(name, as...), w.SortOf(rt))
+				if len(as) == 0 {
+					r.S = name
+				}
+				r.GoT = rt
+				return r
+			}
+		}
+	}
 	// result selector for multi-result Go functions: f$1(args)
 	if i := strings.Index(fname, "$"); i > 0 {
 		base, idx := fname[:i], fname[i+1:]
